@@ -53,3 +53,19 @@ func init() {
 		r.OkTrivial("debug", "x", 0)
 	})
 }
+
+func init() {
+	register("DEBUGINV", func(r *Run) {
+		fn := r.P.Fn(os.Getenv("DBG_FN"))
+		fa := r.P.FA(fn)
+		for _, b := range fn.Blocks {
+			if isLoopHeader(b) {
+				fmt.Fprintf(os.Stderr, "header %d:\n", b.Index)
+				for _, f := range fa.loopInvariants(b) {
+					fmt.Fprintf(os.Stderr, "   %s\n", f)
+				}
+			}
+		}
+		r.OkTrivial("debug", "x", 0)
+	})
+}
